@@ -11,10 +11,10 @@ CHECKS = {
  "C14": ("Coq proof (validity, reduction to SHA-1 collision, refutation witness) + T2 differential of the extracted TempDir model vs Task.TempDir + collision/stability/validity monitors",
          "Theorems over all task identities: the name is one valid segment <= 255 bytes; equal names imply equal SHA-1 of the hashed pre-images (nothing assumed about SHA-1); the non-injective pre-image is a refuted lemma and a recorded finding. The executable model is run against the real NewTask(...).TempDir() on exhaustive small and random large identities on every run.",
          "7 C14", ""),
- "C15": ("Coq proof (scanner = placeholders of a rendered pattern; global Replace acts piece-wise; test vectors; missing values fail) + T2 differential of the extracted Format model vs NewProc/NewTask/Task.Command, SetOut, default path function, applyPathModifiers, port discovery + independent documented-semantics oracle",
+ "C15": ("Coq proof (scanner = placeholders of a rendered pattern; global Replace acts piece-wise; test vectors; missing values fail) + T2 differential of the extracted Format model vs NewProc/NewTask/Task.Command, SetOut, default path function, applyPathModifiers, port discovery + independent documented-semantics oracle + general missing-value theorems for commands and SetOut patterns, default name independent of map enumeration order",
          "Theorems over all structured patterns for the scanner and the substitution step; the executable line-by-line model of formatCommand/applyPathModifiers/port discovery is run against the real functions on a structured and a malformed stream on every run, and the structured stream is also checked against the documented modifier semantics.",
          "7 C15", ""),
- "C13": ("Coq proof (temp path contains no ../ and is relative; refutation witnesses for non-canonical shapes) + T1 conformance of FinalizePaths/createDirs/executeCommand + T2 differential on a path grammar + T3 one-task workflows per output-path shape",
+ "C13": ("Coq proof (temp path contains no ../ and is relative; refutation witnesses for non-canonical shapes) + T1 conformance of FinalizePaths/createDirs/executeCommand + T2 differential on a path grammar + T3 one-task workflows per output-path shape + PathFS/PathBridge: the file written at the placeholder lands at exactly the declared path (store with directories, every canonical path), input placeholders resolve to the input, additional files keep their relative location; FileIP.TempPath split at '/' is the segment-level encoding",
          "Theorems over all path strings for the encoding; skeleton conformance ties the rename source/target to the code; real workflows place a file through {o:..} for every shape of the grammar (plain, new sub-directories, parent-relative, absolute, place-holder-like segments) and check the property statement directly.",
          "7 C13", ""),
  "C01": ("Coq proof of an invariant of the TaskFS transition system over all schedules / kill instants / failure modes + T1 skeleton conformance of Task.Execute, FinalizePaths, FileIP.Write + T3 fault enumeration (kill at every hook point, five failure kinds, random SIGKILL) + T3-replay: the hook event log of every such run is replayed through the extracted TaskFS step function (Replay.replay_sound) and the model state it ends in is compared with the disk",
@@ -26,13 +26,13 @@ CHECKS = {
  "C03": ("Coq proof (complete run = sequential reference; any task-atomic crash state re-runs to the same result; no re-execution; leftovers refused; refutation witness for mid-finalize) + T3 crash / re-run / cleanup / re-run histories incl. nested crashes + T3-replay of the crashed run, the refused re-run and the final run through the extracted TaskFS step function",
          "Convergence is proved for every crash state of every schedule under the guard finalize_atomic, whose complement is the recorded finding D2 (refuted lemma + replay); histories are enumerated on the real library over every hook point.",
          "7 C03", ""),
- "C04": ("Coq proof of history invariants of the process-network transition system (tasks = zip of in-edge histories, each emitted exactly once in order, completeness in final states, schedule independence) + T1 conformance of Process.Run / createTasks / ports + T3 random workflows vs the reference evaluator + T3-replay of every log through the extracted NetA+Ghost and TaskFS step functions (tasks created per process, in order, compared with the reference evaluator)",
+ "C04": ("Coq proof of history invariants of the process-network transition system (tasks = zip of in-edge histories, each emitted exactly once in order, completeness in final states, schedule independence) + T1 conformance of Process.Run / createTasks / ports + T3 random workflows vs the reference evaluator + T3-replay of every log through the extracted NetA+Ghost and TaskFS step functions (tasks created per process, in order, compared with the reference evaluator) + Port.v fan-in theorems (exactly-once delivery, closing with the last upstream, progress), replayed on fan-in and sink ports",
          "Theorems for every merge-free balanced acyclic configuration, every stream length, capacity >= 1 and every schedule; real workflows (incl. fan-in, parameter streams, port-less processes, streams longer than the buffers, perturbed schedules) must produce exactly the file set, bytes and task multiset of the Coq reference evaluator.",
          "7 C04", "Single-port fan-in and parameter ports are covered by the correspondence, not by the network theorems."),
  "C05": ("Coq proof (deadlock freedom for every reachable state by a blame argument, strictly decreasing potential, finished-implies-upstream-finished, completeness at the end) + T1 conformance of runProcs / Run / Sink + T3 termination and at-return snapshots + T3-replay of the logs through the extracted NetA step function",
          "Deadlock freedom and termination are proved for all merge-free balanced acyclic networks with capacity >= 1 and all schedules; the program's own snapshot right after Run returns is checked for every predicted output and for leftovers on shapes with several leaves, driver processes, port-less processes, chains longer than the buffers.",
          "7 C05 and 11.9", "C05_not_early is stated for file edges: a parameter feeder may close after its consumer has finished (C05_param_feeder_may_lag); Run waits for it through the WaitGroup of runProcs."),
- "C08": ("Coq proof (emission order = creation order = arrival order, as an invariant over all schedules) + T1 conformance of the task queue handling + T3 recorders with inverted completion orders + T3-replay of the logs through the extracted NetA+Ghost step function",
+ "C08": ("Coq proof (emission order = creation order = arrival order, as an invariant over all schedules) + T1 conformance of the task queue handling + T3 recorders with inverted completion orders + T3-replay of the logs through the extracted NetA+Ghost step function + Port.v: per-upstream order through fan-in (C08_fanin_order), replayed on fan-in and sink ports",
          "For every configuration and schedule the sequence on an out-edge is the image of the created tasks in order; recorder components on real runs with later tasks finishing first must log exactly that order.",
          "7 C08", ""),
  "C09": ("Coq proof on TaskFS (failure leads to the absorbing exited state, failed outputs untouched, no dependant leaves Wait) + T1 conformance of the Fail paths + T3 failure injection incl. task-formation failures + T3-replay through the extracted TaskFS step function (the failing step must be enabled where the log stops)",
@@ -56,7 +56,7 @@ CHECKS = {
  "C19": ("Coq proof (combine = columns of the Cartesian product for every number of ports and all lengths; selector = filter of aligned tuples; splitter conserves the normalised bytes and bounds part length; concatenation) + T2 of the exported combine + T3 with recorder components downstream of every bundled component",
          "Theorems for all inputs about the executable component models; the models are run against the exported combine functions and against the real components in workflows (all stream lengths 0..buffer+2, all predicate patterns, exact multiples / CRLF / unterminated files), with independent monitors of the property statement (product, conservation, bounds).",
          "7 C19", ""),
- "C20": ("Coq proof (flatten lists every ID of the tree exactly once; the report is a permutation of it sorted by start time with ties by ID; refuted pre-repair ordering) + T2 through the real scipipe binary on generated trees + executing generated Bash scripts of real runs",
+ "C20": ("Coq proof (flatten lists every ID of the tree exactly once; the report is a permutation of it sorted by start time with ties by ID; refuted pre-repair ordering) + T2 through the real scipipe binary on generated trees + executing generated Bash scripts of real runs + Bash.v: the generated script re-creates every listed output with the content of the complete run, for every dependency-closed selection and every concurrent execution",
          "Theorems over all record trees (any depth, fan-in, sharing); the extracted model's order is compared with the (process, ID) sequence parsed from audit2html / audit2tex / audit2bash output of the real CLI on generated trees with ties and zero times, and generated scripts of real workflows are executed and must re-create the file byte-identically.",
          "7 C20", ""),
  "C10": ("Coq proof (fields of the record a successful task stores on each output; incremental provenance over any history = recursive lineage; tag propagation from the AddTag semantics; refutation witness for sub-stream member tags) + T1 conformance of writeAuditLogs / tag accessors / NewFileIP / MapToTags + T3 comparison of every audit file with the model's lineage tree",
